@@ -20,6 +20,7 @@ RULE = ('E3: every simple triangle/quadrilateral (both directions) and polyline 
         'point/line kinds), form agreement asserted for every point including on-ring ones. Non-trivial: the point has '
         'the y of some vertex and lies left of the shape\'s max x, or is collinear with a segment but not on it. '
         'distinct = enumerated (shape,point) pairs + distinct E1 cases.')
+RULE += (' Added after the seeded rounds: integer point lattices against float shapes shifted by half a unit; multilines with runs of empty lines (more parts than coordinates).')
 ASSUMPTIONS = ['exact oracle vpbt/oracle_geom.py', 'polygons valid, holes opposite to shell, strictly inside, disjoint',
                'points exactly on a polygon ring: only agreement between forms is asserted']
 SCOPE = {'quick': {'lattice': 3, 'hole_catalogue': True}, 'thorough': {'lattice': 4, 'hole_catalogue': True}}
